@@ -632,25 +632,6 @@ fn log_check(a: &RefAuto, probes: &Probes, t: &Trace, ans: &Answer, text: &str, 
             detail: J::obj(vec![("grammar", J::s(text)), ("command_line", J::s(&line)), ("probe_log", J::arr_s(ans.log.iter().cloned())), ("why", J::s(&why))]),
         })
     };
-    // walk the path under the strict model
-    let rules = Rules::default();
-    let mut set = a.start_set();
-    let mut states: Vec<(StateSet, String)> = vec![];
-    for w in &t.path {
-        states.push((set.clone(), w.clone()));
-        match read_word(a, &set, w, probes, &rules) {
-            Read::To(n) => set = n,
-            _ => {
-                // not matched: whatever ran must still have been expected where it ran
-                for c in &calls {
-                    if !states.iter().any(|(s, w)| refrun::matching_probe_calls_allowed(a, s, w, probes, c)) {
-                        return mk("probe-ran-unexpectedly", format!("command `{}` ran with arguments ({:?}, {:?}) although no state on the path expects it that way", c.0, c.1, c.2));
-                    }
-                }
-                return None;
-            }
-        }
-    }
     let check_at = |final_set: &StateSet, states: &Vec<(StateSet, String)>| -> Result<(), (String, String)> {
         let Some((expected, allowed)) = refrun::completion_probe_calls(a, final_set, &t.cursor, probes) else { return Ok(()) };
         // completion phase: every expected call must be in the log (once)
@@ -681,6 +662,36 @@ fn log_check(a: &RefAuto, probes: &Probes, t: &Trace, ans: &Answer, text: &str, 
         }
         Ok(())
     };
+    // walk the path under the strict model
+    let rules = Rules::default();
+    let mut set = a.start_set();
+    let mut states: Vec<(StateSet, String)> = vec![];
+    for w in &t.path {
+        states.push((set.clone(), w.clone()));
+        match read_word(a, &set, w, probes, &rules) {
+            Read::To(n) => set = n,
+            _ => {
+                // F7 (listed known finding): a last word that no candidate of a command matches does
+                // not stop the script, it completes from the state before that word
+                if states.len() == t.path.len() {
+                    let (before, last) = states.last().unwrap();
+                    let edges = a.out_edges(before);
+                    let failing_cmd = edges.iter().any(|(l, _)| matches!(&a.labels[*l], RLabel::Cmd { text, .. } if { let c = probes.candidates(text); !c.is_empty() && !c.iter().any(|x| x == last) }));
+                    let strict_ok = calls.iter().all(|c| states.iter().any(|(s, w)| refrun::matching_probe_calls_allowed(a, s, w, probes, c)));
+                    if failing_cmd && !strict_ok && check_at(before, &states).is_ok() {
+                        return mk("last-word-command-mismatch-completes", "probe log shows completion running from the state before the last, unmatched word".to_string());
+                    }
+                }
+                // not matched: whatever ran must still have been expected where it ran
+                for c in &calls {
+                    if !states.iter().any(|(s, w)| refrun::matching_probe_calls_allowed(a, s, w, probes, c)) {
+                        return mk("probe-ran-unexpectedly", format!("command `{}` ran with arguments ({:?}, {:?}) although no state on the path expects it that way", c.0, c.1, c.2));
+                    }
+                }
+                return None;
+            }
+        }
+    }
     match check_at(&set, &states) {
         Ok(()) => None,
         Err((key, why)) => {
